@@ -341,7 +341,8 @@ class Machine:
                 evs.append(("kill",))
                 evs.append(("drain",))
         if self.fs_events:
-            for op, path in (FS_EVENTS[:3] if getattr(self, "fs_core", False) else FS_EVENTS):
+            menu = getattr(self, "fs_menu", None) or (FS_EVENTS[:3] if getattr(self, "fs_core", False) else FS_EVENTS)
+            for op, path in menu:
                 exists = world.exists(path)
                 if op == "delete" and not exists:
                     continue
